@@ -37,6 +37,9 @@ def run(replay=None):
         ck.traces += 1
         if t['setup_error']:
             raise common.MachineryError('wallet setup failed: %s' % t['setup_error'])
+        for nt in t.get('notes', []):
+            ck.beyond('a fee bump of a transaction reloaded from the wallet database is not signed (the wallet refuses to send it)',
+                      '%s wallet seed=%s: %s' % (tuple(t['kind']), t['seed'], nt))
         for e in t['events']:
             if e['op'] == 'tx':
                 ntx += 1
